@@ -74,8 +74,12 @@ int sim_self(void) { return self_id; }
 
 int sim_task_register(void) {
     if (self_id != current) die("register without baton");
-    if (n_tasks >= SIM_MAX_TASKS) die("too many tasks");
-    int id = n_tasks++;
+    int id = -1;
+    for (int i = 1; i < n_tasks; ++i) if (tasks[i].state == T_UNUSED) { id = i; break; } /* lowest free slot: deterministic */
+    if (id < 0) {
+        if (n_tasks >= SIM_MAX_TASKS) die("too many live tasks");
+        id = n_tasks++;
+    }
     tasks[id].state = T_RUNNABLE;
     tasks[id].futex = 0;
     ++st_created;
@@ -108,6 +112,10 @@ static void hand_over(int to, int wait_self) {
         futex_wait_on(&tasks[me].futex);
         /* we hold the baton again */
     }
+}
+
+void sim_task_release(int id) {
+    if (id > 0 && id < n_tasks && tasks[id].state == T_DONE) tasks[id].state = T_UNUSED;
 }
 
 void sim_task_begin(int id) {
